@@ -19,6 +19,7 @@ import (
 	"go/parser"
 	"go/token"
 	"math/rand"
+	"net/http/httptest"
 	"os"
 	"os/exec"
 	"path/filepath"
@@ -164,6 +165,7 @@ type c15Case struct {
 	EnvCase  string   `json:"envcase"`
 	Junk     []string `json:"junk"`
 	Fstate   string   `json:"fstate"`
+	Fetch    string   `json:"fetch"` // path | complete | truncated | reset | notfound | servererror
 	NSide    string   `json:"nside"` // neighbour option: before | after | -
 	NSrc     string   `json:"nsrc"`  // fenv | env | file | -
 	NForm    string   `json:"nform"` // ok | ill | -
@@ -373,6 +375,10 @@ type c15Worker struct {
 	ran     int64
 	skipped int64
 	nnbr    int64
+	nfetch  int64
+	srv     *httptest.Server
+	srvBody string
+	srvCut  int
 	ndeg    int64
 	flaky   int64
 	nontriv int64
@@ -788,6 +794,12 @@ func c15RunShard(t *testing.T, shard, shards int) {
 			if c.Opt != "" {
 				idx = c.Idx
 			}
+			if c.Fetch != "" && c.Fetch != "path" {
+				if !w.runFetch(c, o, ref, idx) {
+					w.skipped++
+				}
+				continue
+			}
 			if c.NSrc != "" && c.NSrc != c15None {
 				if c.Opt == "" && (int64(i)+int64(oi)+seed)%nbrEvery != 0 { // a rotating share in the quick tier
 					w.skipped++
@@ -827,7 +839,7 @@ func c15RunShard(t *testing.T, shard, shards int) {
 	if n := verifx.EnvInt("VERIF_C15_ROBUST", 0); n > 0 {
 		nrob = w.robust(rand.New(rand.NewSource(seed*1000+int64(shard))), n/shards+1)
 	}
-	verifx.Summary(map[string]any{"options": nopts, "all_options": len(opts), "cases": len(cases), "ran": w.ran, "loads": w.loads, "skipped": w.skipped, "flaky": w.flaky, "degenerate_replays": w.ndeg, "neighbour_replays": w.nnbr,
+	verifx.Summary(map[string]any{"options": nopts, "all_options": len(opts), "cases": len(cases), "ran": w.ran, "loads": w.loads, "skipped": w.skipped, "flaky": w.flaky, "degenerate_replays": w.ndeg, "neighbour_replays": w.nnbr, "fetch_replays": w.nfetch,
 		"distinct_nontrivial": w.nontriv, "unobservable": w.unobs, "bad_accepted": w.badAcc, "robust": nrob, "samples": w.samples})
 }
 
